@@ -69,5 +69,6 @@ ProbeCore ==
      K("map"), K("filter"), K("forEach"), K("okeys"), K("forin") >>
 
 None == <<>>
+ProbeQuick == ExploreMore \o ProbeCore
 ExploreAll == ExploreCore \o ExploreMore
 =============================================================================
